@@ -249,6 +249,12 @@ def main():
         else:
             rs.append('        "%s" => crate::c13::de_only::<%s>(input),' % (T, T))
     rs += ['        _ => Err(format!("unknown type {ty}")),', "    }", "}", "",
+           "/// decode a document standalone and return the Debug text of the typed value (used by C02)",
+           "pub fn debug_of(ty: &str, input: &[u8]) -> Result<String, String> {", "    match ty {"]
+    for T, elem in sorted(sch["roots_de"].items()):
+        if elem:
+            rs.append('        "%s" => crate::c13::de_debug::<%s>(input),' % (T, T))
+    rs += ['        _ => Err(format!("unknown type {ty}")),', "    }", "}", "",
            "pub const DE_ROOTS: &[&str] = &[%s];" % ", ".join('"%s"' % t for t, v in sorted(sch["roots_de"].items()) if v),
            "pub const SER_ROOTS: &[&str] = &[%s];" % ", ".join('"%s"' % t for t, v in sorted(sch["roots_ser"].items()) if v)]
     vlib.write_if_changed(os.path.join(vlib.HARNESS, "src", "gen_xml.rs"), "\n".join(rs) + "\n")
